@@ -14,6 +14,7 @@ func TestC08(t *testing.T) {
 	r := newRun(t, "C08", "exploration")
 	defer r.Finish(t)
 	r.Rule = "two parts: A = plain build, fake-clock families; B = race-detector build, real-clock families plus a small fake-clock block; scenarios for {v1 join, v2 join, unite} on the fake clock and on the real clock: (copy) the consumer keeps every slice, snapshots s[:cap(s)] at delivery, later overwrites whole capacities with poison while the producer keeps pushing and timeouts fire - un-poisoned snapshots must be intact, backing arrays pairwise disjoint and (unite) disjoint from every input slice incl. re-sent slice objects; (no-copy) the slice is re-read just before release-start and must equal its snapshot, Output() must be empty (non-blocking receive at a quiescent point) while held for 0..3 Timeouts; (v1) Stop/cancel injected between delivery and release with a busy input, snapshot must be intact after termination. Any race report counts. non-trivial = copy: >= 2 retained slices of which >= 1 poisoned before later deliveries; no-copy: >= 2 slices held; stop: injection landed before the release; distinct by scenario fingerprint"
+	r.Rule += " | also: Stop() from another goroutine while the consumer keeps reading (copy mode); no-copy stops at arbitrary points with the check that every v1 slice is a run of consecutive input elements; no input slice is ever written to (whole capacity)"
 	r.Assumptions = []string{"testing/synctest fake clock of go1.26.8", "the Go race detector (reports only races on executed paths)", "reading s[len:cap] of a slice the consumer owns is allowed"}
 	r.Floor = 20
 	if replayJoin(t, r) {
